@@ -74,7 +74,12 @@ RULE = ("(A) scripted units: throw-away Unit subclasses whose get_root_hook_resu
         "its own; the cooled workpiece temperature a persisted result), a profile without grain size asks the profile before it "
         "(out <- in <- previous out / the parent's in profile; refined by passes, persisted) - and 1-2 OTHER sequences (other "
         "rows of transports, other objects holding values, a unit dropped) that are solved in between: fresh after other vs "
-        "fresh, solve again after other vs the previous solve, marks after every completed solve. non-trivial = some unit needed >= 2 iterations after its first one / a scripted history "
+        "fresh, solve again after other vs the previous solve, marks after every completed solve; 3 of 10 cases carry a plug-in "
+        "root hook that feeds back into itself (scalar / numpy array / python list of 1-6 components, on the out profile of the "
+        "passes or transports - hook declared by the harness like extension_class does - or the roll's temperature_field), half "
+        "of the spread models persist the width as root hook (pass and rotator out profiles), 4 of 10 cases are also solved "
+        "with a stock 10-60 % too large until the core or a validity-range model on a later unit refuses it, then with the right "
+        "stock on the same sequence vs fresh. non-trivial = some unit needed >= 2 iterations after its first one / a scripted history "
         "with >= 2 vectors / >= 2 init_solve calls; distinct by the rounded case description.")
 ASSUMPTIONS = [
     "what one loop body does to the unit (caches, sub-units, hook evaluation) is a parameter of the model (step); the "
@@ -119,6 +124,10 @@ class Interrupt(BaseException):
 
 class CustomError(Exception):
     pass
+
+
+class ValidityRange(ValueError):
+    """raised by a model implementation of the harness that refuses inputs outside its validity range"""
 
 
 FAULT_TYPES = {"ZeroDivisionError": ZeroDivisionError, "ValueError": ValueError, "TypeError": TypeError,
@@ -444,9 +453,11 @@ class Registered:
         self.saved_cfg = None
         self.counts = {}
         self.cyclers = []             # the registered hook functions that read their own hook on other instances
+        self.declared = []            # (class, name) of hooks declared by the harness (plug-in style)
+        self.guard = None             # {"label", "thr"}: a model with a validity range refusing too large an incoming section
 
     def __enter__(self):
-        from pyroll.core import RollPass, ThreeRollPass, BaseRollPass, Transport, Unit, Config, root_hooks
+        from pyroll.core import RollPass, ThreeRollPass, BaseRollPass, Transport, Unit, Config, Rotator, root_hooks
         try:
             m = self.case.get("models", {})
             if "flow_stress" in m:
@@ -466,6 +477,14 @@ class Registered:
                         return None
                     return self.roll_pass.in_profile.width * self.roll_pass.draught ** c["e"]
                 self._add(RollPass.OutProfile.width, width)
+                if c.get("root"):
+                    # the spread model plugged in as plug-ins do it: the width is a persisted result (root hook) of the pass's
+                    # out profile - and of the rotator's, which would otherwise keep the un-rotated width handed over to it
+                    for hk in (RollPass.OutProfile.width, Rotator.OutProfile.width):
+                        root_hooks.append(hk)
+                        self.roots.append(hk)
+            if "field" in m:
+                self._register_field(m["field"])
             if "temperature" in m:
                 c = m["temperature"]
 
@@ -586,6 +605,18 @@ class Registered:
                             raise FAULT_TYPES[f["type"]](f"injected fault at call {f['k']} of {key}")
                         return None
                     self._add(fault_hook(key), faulty, tryfirst=True)
+            if (self.case.get("fault2") or {}).get("oversize"):
+                reg2 = self
+
+                def validity_range(self):
+                    # a model with a validity range (pass-through otherwise): it refuses to compute a unit whose incoming
+                    # cross-section is larger than what it was made for
+                    g = reg2.guard
+                    if g is not None and self.label == g["label"] and self.in_profile.cross_section.area > g["thr"]:
+                        raise ValidityRange(f"incoming cross-section {self.in_profile.cross_section.area:.6g} of {self.label} beyond "
+                                            f"the validity range of the model ({g['thr']:.6g})")
+                    return None
+                self._add(Unit.power, validity_range, tryfirst=True)
             if self.case["via"] == "config":
                 self.saved_cfg = (Config.DEFAULT_MAX_ITERATION_COUNT, Config.DEFAULT_ITERATION_PRECISION)
                 Config.DEFAULT_MAX_ITERATION_COUNT = self.case["max_iter"]
@@ -598,6 +629,84 @@ class Registered:
     def _add(self, hook, fn, **kw):
         self.hfs.append((hook, hook.add_function(fn, **kw)))
 
+    def _declare(self, cls, name):
+        """a NEW hook on an existing hook host class, as `HookHost.extension_class` does it (removed again on exit - from the
+        class and from the sub-classes `Hook.__get__` copies it to)"""
+        import numpy as np
+        from pyroll.core import Hook
+        if name in cls.__dict__:
+            raise RuntimeError(f"harness: {cls.__qualname__} already has an attribute {name}")
+        setattr(cls, name, Hook[np.ndarray]())
+        self.declared.append((cls, name))
+        return getattr(cls, name)
+
+    def _register_field(self, c):
+        """A plug-in result that is a root hook and feeds back into ITSELF from iteration to iteration (under-relaxed fixed point
+        iteration: value = previous + w * (target - previous), contraction 1 - w whatever the core's own results do), scalar
+        (`n` = 0) or VECTOR valued (`n` >= 1 components: numpy array or python list - temperatures of concentric rings of the
+        profile / of the roll), on the out profile of the roll passes (a hook declared by the plug-in), on the ROLL (the core's
+        `temperature_field`, which has no implementation) or on the out profile of the transports."""
+        import numpy as np
+        from pyroll.core import BaseRollPass, Transport, root_hooks
+        n, w, name = c["n"], c["w"], c.get("name", "ring_temperatures")
+
+        def shape(x):
+            if n == 0:
+                return float(np.ravel(x)[0])
+            a = np.asarray(x, dtype=float)
+            return [float(v) for v in a] if c.get("as") == "list" else a
+
+        def relax(host, nm, start, target):
+            prev = host.__dict__.get(nm)
+            prev = start if prev is None or np.shape(np.atleast_1d(prev)) != np.shape(start) else np.atleast_1d(np.asarray(prev, dtype=float))
+            return shape(prev + w * (target - prev))
+        m = max(n, 1)
+        prof = np.linspace(30.0, -250.0, m) if m > 1 else np.array([-120.0])
+        if c["host"] == "roll":
+            hook, nm = BaseRollPass.Roll.temperature_field, "temperature_field"
+
+            def field(self):
+                rp = self.roll_pass
+                force = rp.roll_force if rp.has_set("roll_force") else 0.0
+                start = np.full(m, 300.0)
+                return relax(self, nm, start, start + np.linspace(c["dT"], 0.2 * c["dT"], m) * math.tanh(force / 1e5))
+            self._add(hook, field)
+        elif c["host"] == "transport":
+            hook, nm = self._declare(Transport.OutProfile, name), name
+
+            def field(self, cycle):
+                if cycle:
+                    return None
+                tr = self.unit
+                if not tr.has_value("duration"):
+                    return None
+                start = np.full(m, float(tr.in_profile.temperature))
+                return relax(self, nm, start, 300.0 + (start - 300.0) * np.exp(-0.02 * tr.duration * np.linspace(0.5, 1.5, m)))
+            self._add(hook, field)
+        else:
+            hook, nm = self._declare(BaseRollPass.OutProfile, name), name
+
+            def field(self, cycle):
+                if cycle:
+                    return None
+                rp = self.roll_pass
+                # the surface chilled by the rolls, the core heated by the deformation (the strain is a persisted result)
+                start = np.full(m, float(rp.in_profile.temperature))
+                return relax(self, nm, start, start + prof * c.get("g", 1.0) * rp.out_profile.strain)
+            self._add(hook, field)
+            if c.get("used") and not ({"temperature", "roll"} & set(self.case["models"])):
+                def mean_temperature(self):
+                    # ... and used: the mean temperature of the leaving profile follows the rings
+                    rp = self.roll_pass
+                    v = getattr(self, nm, None)
+                    t_in = rp.in_profile.temperature
+                    return t_in if v is None else t_in + c.get("h", 0.1) * (float(np.mean(v)) - t_in)
+                self._add(BaseRollPass.OutProfile.temperature, mean_temperature)
+                root_hooks.append(BaseRollPass.OutProfile.temperature)
+                self.roots.append(BaseRollPass.OutProfile.temperature)
+        root_hooks.append(hook)
+        self.roots.append(hook)
+
     def __exit__(self, *a):
         from pyroll.core import Config, root_hooks
         if self.saved_cfg is not None:
@@ -609,6 +718,11 @@ class Registered:
         for hook, hf in reversed(self.hfs):
             hook.remove_function(hf)
         self.hfs = []
+        for cls, name in reversed(self.declared):
+            for k in [cls] + _all_subclasses(cls):
+                if name in k.__dict__:
+                    delattr(k, name)
+        self.declared = []
         return False
 
 
@@ -787,7 +901,32 @@ def gen_case(rng):
         # (whatever the models: another sequence - the line without its last unit, or the line itself - solved in between)
         o = copy.deepcopy(units[:-1] if len(units) > 1 and rng2.random() < 0.6 else units)
         case["others"] = [o if any(u["type"] in ("pass", "seq") for u in o) else copy.deepcopy(units)]
+    # plug-in root hooks that feed back (scalar AND vector valued; the spread model's width as a persisted result) and a solve
+    # aborted because of the INCOMING STATE (too large a stock), the cause then removed upstream - again decided by a generator
+    # derived from the case, so that the stream of cases stays what it was, some of them extended
+    gen_plugin(random.Random("c05-plug:" + json.dumps(case, sort_keys=True)), case)
     return case
+
+
+def _has_type(units, types):
+    return any(u["type"] in types or (u["type"] == "seq" and _has_type(u["units"], types)) for u in units)
+
+
+def gen_plugin(rng, case):
+    m = case["models"]
+    if "width" in m and rng.random() < 0.5:
+        m["width"]["root"] = True
+    if rng.random() < 0.3:
+        host = rng.choice(["out", "out", "out", "roll", "transport"])
+        if host == "transport" and not _has_type(case["units"], ("transport", "pipe")):
+            host = "out"
+        if host != "transport" and not _has_type(case["units"], ("pass",)):
+            host = "transport"
+        m["field"] = {"host": host, "n": rng.choice([0, 1, 3, 6, 6]), "w": rng.choice([0.35, 0.5, 0.7]),
+                      "as": rng.choice(["array", "array", "list"]), "used": rng.random() < 0.4, "dT": rng.choice([40.0, 80.0]),
+                      "g": rng.choice([1.0, 0.5]), "h": rng.choice([0.1, 0.02])}
+    if rng.random() < 0.4:
+        case["fault2"] = {"oversize": rng.choice([1.1, 1.2, 1.3, 1.45, 1.6]), "u": round(rng.random(), 6)}
 
 
 def _all_transport_lists(units):
@@ -1640,7 +1779,8 @@ def compare_model(ctx, kind, ans, item):
 # ---------------------------------------------------------------------------------------------------------------
 
 CURATED = ("roll_force", "roll_torque", "power", "strain", "length", "t", "temperature", "flow_stress", "velocity",
-           "strain_rate", "width", "surface_temperature", "core_temperature", "grain_size")
+           "strain_rate", "width", "surface_temperature", "core_temperature", "grain_size", "ring_temperatures", "temperature_field",
+           "filling_ratio", "cross_section_filling_ratio")
 
 
 def walk_units(u, path="S"):
@@ -1660,6 +1800,9 @@ def _numeric(v):
         return [float(x) for x in v.ravel()]
     if isinstance(v, Polygon):
         return [float(x) for x in np.asarray(v.exterior.coords).ravel()]
+    if isinstance(v, (list, tuple)) and v and all(isinstance(x, (int, float, np.integer, np.floating)) and not isinstance(x, bool)
+                                                  for x in v):
+        return [float(x) for x in v]           # (a vector-valued result kept as a python list)
     return None
 
 
@@ -2083,6 +2226,41 @@ def run_case(ctx, case, lines, pending):
                 after_abort(ctx, case, rec, E, e1, a1, ip, lines, pending)
         else:
             ctx.count("fault:no-hook-called")
+        # ---- a solve aborted because of the INCOMING STATE: the stock is too large - some unit genuinely refuses it (over-width
+        # ValueError of the core ...) or a model with a validity range on a LATER unit does, after the units before it have been
+        # solved with the oversized stock -; the cause is removed upstream (the stock the case was made for) and the same
+        # sequence solved again: "... leaves the sequence usable, so that once the cause is removed it solves to the same
+        # results as a fresh one" (= `a1`)
+        f2 = case.get("fault2") or {}
+        if f2.get("oversize") and not a1.warned:
+            spec_big = dict(case["in"], size=round(case["in"]["size"] * f2["oversize"], 6))
+            G = build_sequence(case)
+            g = solve_rec(rec, G, build_in_profile(spec_big))
+            if g.err is not None:
+                ctx.count("fault:oversize-refused-by-core:" + type(_root_cause(g.err)).__name__)
+                after_abort(ctx, case, rec, G, g, a1, ip, lines, pending, reg=reg, tag="oversize")
+            else:
+                labels = [u.label for _, u in walk_units(G)]
+                cands = []
+                for path, u in list(walk_units(G))[2:]:
+                    k = f"{path}.in_profile.cs.area"
+                    if labels.count(u.label) == 1 and k in a1.snap and k in g.snap and g.snap[k][0] > 1.02 * a1.snap[k][0] > 0:
+                        cands.append((u.label, math.sqrt(g.snap[k][0] * a1.snap[k][0])))
+                if not cands:
+                    ctx.count("fault:oversize-no-later-unit")
+                else:
+                    label, thr = cands[min(int(f2.get("u", 0.0) * len(cands)), len(cands) - 1)]
+                    reg.guard = {"label": label, "thr": thr}
+                    try:
+                        E = build_sequence(case)
+                        e1 = solve_rec(rec, E, build_in_profile(spec_big), expect_fault=True)
+                        if e1.err is None:
+                            ctx.count("fault:oversize-accepted")
+                        else:
+                            ctx.count("fault:oversize-refused-by-model")
+                            after_abort(ctx, case, rec, E, e1, a1, ip, lines, pending, reg=reg, tag="oversize")
+                    finally:
+                        reg.guard = None
 
 
 def _marks_of(hf):
@@ -2105,19 +2283,56 @@ def check_marks(ctx, case, reg, seq, tag):
         ctx.validated()
 
 
-def after_abort(ctx, case, rec, E, e1, a1, ip, lines, pending):
-    check_frames(ctx, case, e1.frames, lines, pending, "aborted")
+def _without_plugin_start_values(H, roots):
+    """drops, from every hook host of the (aborted) sequence `H`, the explicit values of the root hooks the HARNESS registered"""
+    from pyroll.core import HookHost, Unit
+    n = 0
+    for _, u in walk_units(H):
+        hosts = [u] + [v for v in list(u.__dict__.values()) if isinstance(v, HookHost) and not isinstance(v, Unit)]
+        for host in hosts:
+            for hk in roots:
+                if isinstance(host, hk.owner) and hk.name in host.__dict__:
+                    del host.__dict__[hk.name]
+                    n += 1
+    return n
+
+
+def after_abort(ctx, case, rec, E, e1, a1, ip, lines, pending, reg=None, tag=None):
+    pre = "" if tag is None else tag + "-"
+    check_frames(ctx, case, e1.frames, lines, pending, pre + "aborted")
     left = marks_left(E)
     if left:
         report(ctx, "mark-left-after-abort", f"after the aborted solve ({e1.err!r}) re-entrancy marks are still set: {left[:3]}",
                {"case": case})
     F = copy.deepcopy(E)
+    H = copy.deepcopy(E) if reg is not None and reg.roots else None
     e2 = solve_rec(rec, E, ip())
     f2 = solve_rec(rec, F, ip())
-    check_frames(ctx, case, e2.frames, lines, pending, "retry")
+    check_frames(ctx, case, e2.frames, lines, pending, pre + "retry")
     if e2.err is not None and a1.warned:
         ctx.count("retry-raised-where-fresh-solve-warned")      # not converging anyway: nothing is claimed
         return
+    if e2.err is not None and isinstance(_root_cause(e2.err), ValidityRange):
+        # (the harness's own model with a validity range refused an intermediate state of the retry: a fresh sequence with that
+        # model registered is not known to get through either - nothing is claimed)
+        ctx.count("retry-refused-by-validity-range-model")
+        return
+    if e2.err is not None and H is not None and _without_plugin_start_values(H, reg.roots):
+        # Diagnosis by experiment: the same aborted sequence (deep copy) solves like a fresh one as soon as the values the
+        # PLUG-IN root hooks persisted in the aborted iteration are discarded -> the retry failed on exactly those start values
+        # (recorded finding 7 of notes/C05.md: reported under its own key, every other failing retry under the general one).
+        h2 = solve_rec(rec, H, ip())
+        if h2.err is None and not h2.warned:
+            prec = max_prec(a1.frames + h2.frames)
+            (r, _), missing = diff_within(a1.snap, h2.snap, None)
+            if prec is not None and not missing and r <= WITHIN_K * prec:
+                root = _root_cause(e2.err)
+                report(ctx, "retry-raises-on-plugin-root-value-of-aborted-iterate",
+                       f"solve aborted by {_root_cause(e1.err)!r}; cause removed; the next solve of the same sequence raised "
+                       f"{type(e2.err).__name__}: {e2.err} <- {type(root).__name__}: {root}; with the values persisted by the "
+                       f"plug-in root hooks {sorted({h.name for h in reg.roots})} in the aborted iteration discarded it solves "
+                       f"like a fresh sequence", {"case": case})
+                return
     if e2.err is not None:
         root = _root_cause(e2.err)
         report(ctx, "retry-after-abort-raises", f"solve aborted by {_root_cause(e1.err)!r}; cause removed; the next solve of the same "
@@ -2270,6 +2485,53 @@ CORPUS = [
                  {"type": "seq", "units": [{"type": "transport", "duration": 1, "disks": 0},
                                            {"type": "pass", "groove": "round", "scale": 1.0, "disks": 0}]}]],
      "prec": 1e-4, "max_iter": 100, "via": "kwargs", "fault": {"hook": "pass.roll_force", "type": "KeyError", "u": 0.5}},
+    # a plug-in result that is VECTOR valued (temperatures of six concentric rings of the leaving profile: a hook declared by the
+    # plug-in on the out profile of the roll passes, registered as root hook) and feeds back into itself, under-relaxed, settling
+    # far more slowly than the scalar results: a pass on its own ...
+    {"in": {"kind": "round", "size": 30e-3, "length": 1, "strain": 0, "flow_stress": 100e6},
+     "models": {"field": {"host": "out", "n": 6, "w": 0.35, "as": "array", "used": False, "dT": 40.0, "g": 1.0}},
+     "units": [{"type": "pass", "groove": "oval", "scale": 1.0, "disks": 0}], "alone": True,
+     "prec": 1e-3, "max_iter": 100, "via": "config", "fault": {"hook": "pass.out.strain", "type": "ValueError", "u": 0.5}},
+    # ... with a limit too low for it to settle (must warn) ...
+    {"in": {"kind": "round", "size": 30e-3, "length": 1, "strain": 0, "flow_stress": 100e6},
+     "models": {"field": {"host": "out", "n": 3, "w": 0.35, "as": "list", "used": False, "dT": 40.0, "g": 1.0}},
+     "units": [{"type": "pass", "groove": "oval", "scale": 1.0, "disks": 0}], "alone": True,
+     "prec": 1e-3, "max_iter": 5, "via": "kwargs", "fault": {"hook": "unit.power", "type": "KeyError", "u": 0.5}},
+    # ... and in a line, tight precision, the field on the ROLL (the core's `temperature_field`) resp. on the transports' out profiles
+    {"in": {"kind": "round", "size": 30e-3, "length": 1, "strain": 0, "flow_stress": 100e6},
+     "models": {"field": {"host": "roll", "n": 6, "w": 0.5, "as": "array", "used": False, "dT": 80.0}},
+     "units": [{"type": "pass", "groove": "oval", "scale": 1.0, "disks": 0}, {"type": "transport", "duration": 1, "disks": 0}],
+     "prec": 1e-5, "max_iter": 100, "via": "kwargs", "fault": {"hook": "roll.roll_torque", "type": "TypeError", "u": 0.5}},
+    {"in": {"kind": "round", "size": 30e-3, "length": 1, "strain": 0},
+     "models": {"flow_stress": {"beta": 0}, "field": {"host": "transport", "n": 3, "w": 0.5, "as": "array", "used": False, "dT": 40.0}},
+     "units": [{"type": "pass", "groove": "oval", "scale": 1.0, "disks": 0}, {"type": "transport", "duration": 2, "disks": 0},
+               {"type": "pass", "groove": "round", "scale": 1.0, "disks": 0}],
+     "prec": 1e-4, "max_iter": 100, "via": "config", "fault": {"hook": "unit.out.t", "type": "ZeroDivisionError", "u": 0.3}},
+    # the solve aborted because of the INCOMING STATE (stock 13 % too large: a model with a validity range refuses the round pass
+    # after oval pass and transport have been solved with it), cause removed upstream (the right stock), solved again vs fresh;
+    # the spread model's width a persisted result (root hook of the pass's and the rotator's out profile, the plug-in way)
+    {"in": {"kind": "round", "size": 30e-3, "length": 1, "strain": 0, "flow_stress": 100e6},
+     "models": {"width": {"e": -0.5, "root": True}},
+     "units": [{"type": "pass", "groove": "oval", "scale": 1.0, "disks": 0}, {"type": "transport", "duration": 1, "disks": 0},
+               {"type": "pass", "groove": "round", "scale": 1.0, "disks": 0}],
+     "prec": 1e-3, "max_iter": 100, "via": "config", "fault": {"hook": "unit.out.length", "type": "RuntimeError", "u": 0.6},
+     "fault2": {"oversize": 1.1333, "u": 0.99}},
+    # ... the same without any plug-in root hook (the spread model an ordinary implementation), a rotator and a nested sequence
+    # behind the first pass
+    {"in": {"kind": "round", "size": 30e-3, "length": 1, "strain": 0, "flow_stress": 100e6}, "models": {"width": {"e": -0.5}},
+     "units": [{"type": "pass", "groove": "oval", "scale": 1.0, "disks": 0}, {"type": "rotator", "rotation": 90},
+               {"type": "seq", "units": [{"type": "transport", "duration": 1, "disks": 0},
+                                         {"type": "pass", "groove": "round", "scale": 1.0, "disks": 0, "rotation": False}]}],
+     "prec": 1e-4, "max_iter": 100, "via": "kwargs", "fault": {"hook": "pass.roll_force", "type": "ValueError", "u": 0.2},
+     "fault2": {"oversize": 1.2, "u": 0.99}},
+    # recorded finding `retry-raises-on-plugin-root-value-of-aborted-iterate` (KNOWN_FINDINGS.txt, notes/C05.md finding 7): stock
+    # 47 % too large, the oval pass aborts with the core's over-width ValueError and keeps the over-wide persisted width
+    {"in": {"kind": "round", "size": 30e-3, "length": 1, "strain": 0, "flow_stress": 100e6},
+     "models": {"width": {"e": -0.5, "root": True}},
+     "units": [{"type": "pass", "groove": "oval", "scale": 1.0, "disks": 0}, {"type": "transport", "duration": 1, "disks": 0},
+               {"type": "pass", "groove": "round", "scale": 1.0, "disks": 0}],
+     "prec": 1e-3, "max_iter": 100, "via": "config", "fault": {"hook": "unit.power", "type": "CustomError", "u": 0.1},
+     "fault2": {"oversize": 1.47, "u": 0.0}},
 ]
 
 
